@@ -184,17 +184,21 @@ def functor_program(draw):
         labels.append('functor_over_recursive')
     made = []
     prev = f
+    remaining = {f: list(args)}      # functor arguments not yet substituted
     nmake = draw(st.integers(1, 4))
     for i in range(nmake):
         g = names.pop()
         src = draw(st.sampled_from([f, prev]))
-        chosen = [a for a in args if draw(st.booleans())] or [args[0]]
+        if not remaining[src]:
+            src = f
+        chosen = [a for a in remaining[src] if draw(st.booleans())] or [remaining[src][0]]
         binding = ', '.join('%s: %s' % (a, draw(st.sampled_from(base))) for a in chosen)
         form = draw(st.sampled_from(['assign', 'make']))
         if form == 'assign':
             lines.append('%s := %s(%s);' % (g, src, binding))
         else:
             lines.append('@Make(%s, %s, {%s});' % (g, src, binding))
+        remaining[g] = [a for a in remaining[src] if a not in chosen]
         made.append(g)
         prev = g
     lines.append('Test(x) :- %s;' % ', '.join('%s(x)' % g for g in made))
@@ -274,8 +278,9 @@ def import_program(draw):
     if engine:
         lines.append(engine_line(engine).strip())
     lines.append('Test(x) :- %s;' % ', '.join('%s(x)' % u[2] for u in used))
+    lines.append('Own(x) :- %s(x), x > 0;' % draw(st.sampled_from(used))[2])
     return {'text': '\n'.join(lines) + '\n', 'files': files, 'import_root': '$FILES',
-            'preds': ['Test', used[0][2]],
+            'preds': ['Test', 'Own'],
             'labels': ['shape:imports', 'engine:%s' % (engine or 'default'),
                        'imported_files:%d' % nfiles],
             'role': 'gen', 'multiset': nfiles >= 2}
